@@ -223,7 +223,7 @@ def run(ctx):
                         ok = True
             if g_ is ie:
                 trues = [i for i, v in rets if v[:3] == ("const", "bool", True)]
-                ok_null = all(any(lab is True and sym_is_call(d, "is_null") for d, lab in gates(b, i)) for i in trues)
+                ok_null = all(any((lab is True and sym_is_call(d, "is_null")) or (lab == "None" and sym_is_call(d, "Shared<'g, T>::as_ref", "as_ref")) for d, lab in gates(b, i)) for i in trues)
         chk.ob("C05.b", ie.path, ok and ok_null, "is_empty() is true only for a null tail, or an empty tail block whose predecessor is empty too" if ok and ok_null else "is_empty() does not look at the block behind a fresh, still empty tail: it reports `empty` while completed pushes sit in the older blocks", ie.loc())
     nlf = (u.method(BLK, "next_len") or [None])[0]
     if nlf:
